@@ -1011,3 +1011,53 @@ pub fn walks(out: &mut dyn Write, rng: &mut Rng, stride: u64) {
     }
     writeln!(out, "DIST\twalk_roots={}\twalk_nodes={nodes}", roots.len()).unwrap();
 }
+
+
+/// exhaustive small-material family: both kings plus ONE extra man of any kind and colour, either side to move
+/// (every placement the builder accepts); sharded by the white king's square
+pub fn small_family(out: &mut dyn Write, with_moves: bool) {
+    let shard: u64 = std::env::var("VERIF_SHARD").ok().and_then(|s| s.parse().ok()).unwrap_or(0);
+    let shards: u64 = std::env::var("VERIF_SHARDS").ok().and_then(|s| s.parse().ok()).unwrap_or(1).max(1);
+    let mut dist = Dist::default();
+    let kinds = [Piece::Pawn, Piece::Knight, Piece::Bishop, Piece::Rook, Piece::Queen];
+    for wk in 0..64u8 {
+        if (wk as u64) % shards != shard {
+            continue;
+        }
+        for bk in 0..64u8 {
+            if bk == wk {
+                continue;
+            }
+            for x in 0..64u8 {
+                if x == wk || x == bk {
+                    continue;
+                }
+                for &kind in &kinds {
+                    if kind == Piece::Pawn && (x < 8 || x >= 56) {
+                        continue;
+                    }
+                    for xc in [Color::White, Color::Black] {
+                        for turn in [Color::White, Color::Black] {
+                            let mut bd = Board::builder();
+                            bd.turn(turn);
+                            if bd.place(p(wk), Color::White, Piece::King).is_err() { continue; }
+                            if bd.place(p(bk), Color::Black, Piece::King).is_err() { continue; }
+                            if bd.place(p(x), xc, kind).is_err() { continue; }
+                            if let Ok(b) = bd.build() {
+                                let l = sorted_moves(&b);
+                                dist.note(&b, &l);
+                                pos_line(out, &b);
+                                if with_moves {
+                                    for m in &l {
+                                        move_line(out, &b, *m);
+                                    }
+                                }
+                            }
+                        }
+                    }
+                }
+            }
+        }
+    }
+    dist.print(out);
+}
